@@ -1,1 +1,288 @@
-pub fn run(_a: &vcommon::Args) {}
+//! C29 — Node-signed announcement timestamps strictly increase.
+//!
+//! Every distinct announcement signed by the local key is collected from the outbox and from the
+//! gossip store after each step. Creation order is bounded soundly: an announcement was created no
+//! later than the step it first surfaced; refs announcements are created in the step they surface;
+//! the cached inventory announcement may have been created at the last `initialize()`; the node
+//! announcement handed to `Service::new` is created by the environment and exempt.
+use std::collections::{BTreeMap, BTreeSet};
+
+use radicle::identity::doc::Visibility;
+use radicle::identity::{Did, RepoId};
+use radicle::storage::RefUpdate;
+use radicle::test::storage::MockStorage;
+use radicle_node::prelude::{Filter, LocalDuration, LocalTime, Message, NodeId, Timestamp};
+use radicle_node::service::gossip::Store as _;
+use radicle_node::service::io::Io;
+use radicle_node::service::message::{Announcement, AnnouncementMessage};
+use radicle_node::service::policy::{Scope, SeedingPolicy};
+use radicle_node::service::{Command, DisconnectReason, Metrics, ServiceState};
+use radicle_node::worker::fetch::FetchResult;
+use radicle_node::{wire, Link};
+use vcommon::{guarded, json, Args, Reporter, Rng, Value};
+
+use crate::svc::{self, Remote};
+
+#[derive(Clone)]
+struct Seen {
+    first_step: usize,
+    created_not_before: usize,
+    ts: u64,
+    kind: &'static str,
+    rid: Option<RepoId>,
+}
+
+fn one(rep: &mut Reporter, seed: u64, thorough: bool) {
+    let mut rng = Rng::new(seed);
+    let nrem = 2 + rng.usize(3);
+    let remotes: Vec<Remote> = (0..nrem as u8).map(Remote::new).collect();
+    let local = svc::device(20, 0);
+    let local_nid: NodeId = *local.public_key();
+    let nrepos = 2 + rng.usize(3);
+    let mut inventory = vec![];
+    let mut rids = vec![];
+    let mut docs = vec![];
+    for i in 0..nrepos {
+        let (rid, doc) = svc::mk_doc(&format!("c29-{i}-{seed}"), &[Did::from(local_nid)], Visibility::Public);
+        inventory.push((rid, doc.clone()));
+        rids.push(rid);
+        docs.push(doc);
+    }
+    let storage = MockStorage::new(inventory);
+    let opts = svc::NodeOpts { relay: true, policy: SeedingPolicy::Allow { scope: Scope::All }, seed, fetch_concurrency: 2 };
+    let Ok(mut node) = guarded(|| svc::mk_node(storage, &opts)) else {
+        rep.inconclusive("node construction panicked", json!({}));
+        return;
+    };
+    for rid in &rids {
+        svc::install_refs(&mut node, rid, &local, &mut rng);
+        for r in &remotes {
+            svc::install_refs(&mut node, rid, &r.dev, &mut rng);
+        }
+    }
+    let mut seen: BTreeMap<Vec<u8>, Seen> = BTreeMap::new();
+    let mut order: Vec<Vec<u8>> = vec![];
+    let mut log: Vec<Value> = vec![];
+    let mut connected = vec![false; nrem];
+    let mut last_init_step = 0usize;
+    let mut clock_ms = svc::T0;
+    let mut stalled_or_backwards_since_last = false;
+    let mut fetching: Vec<(RepoId, usize)> = vec![];
+    let nsteps = 30 + rng.usize(if thorough { 70 } else { 30 });
+    let mut produced_while_stalled = 0u64;
+    let metrics = Metrics::default();
+
+    for step in 0..=nsteps {
+        let desc: Value = if step == 0 {
+            json!({"initial": true})
+        } else {
+            let choice = rng.below(100);
+            let r = guarded(|| -> Value {
+                match choice {
+                    0..=19 => {
+                        // clock: forward / equal / backward
+                        let (t, class) = match rng.below(4) {
+                            0 => (clock_ms, "equal"),
+                            1 => (clock_ms.saturating_sub(1 + rng.below(100_000)), "backward"),
+                            _ => (clock_ms + 1 + rng.below(20_000), "forward"),
+                        };
+                        node.service.tick(LocalTime::from_millis(t as u128), &metrics);
+                        node.service.wake();
+                        if class != "forward" {
+                            stalled_or_backwards_since_last = true;
+                        } else {
+                            clock_ms = t;
+                        }
+                        json!({"tick+wake": t, "class": class})
+                    }
+                    20..=27 => {
+                        // restart: initialize with a time that may be earlier than the clock
+                        // (the same Service object is only ever re-initialised at its current clock or
+                        // later; a real restart with an earlier wall clock creates a fresh Service)
+                        let (t, class) = match rng.below(2) {
+                            0 => (clock_ms, "equal"),
+                            _ => (clock_ms + 1 + rng.below(10_000), "forward"),
+                        };
+                        let _ = node.service.initialize(LocalTime::from_millis(t as u128));
+                        clock_ms = t;
+                        if class != "forward" {
+                            stalled_or_backwards_since_last = true;
+                        }
+                        json!({"restart(initialize)": t, "class": class})
+                    }
+                    28..=39 => {
+                        let p = rng.usize(nrem);
+                        if !connected[p] {
+                            svc::connect_inbound(&mut node, &remotes[p]);
+                            node.service.received_message(remotes[p].nid, remotes[p].node_announcement(clock_ms).into());
+                            node.service.received_message(remotes[p].nid, svc::subscribe_all(1));
+                            connected[p] = true;
+                            json!({"connect+subscribe": p})
+                        } else {
+                            node.service.disconnected(remotes[p].nid, Link::Inbound, &DisconnectReason::Command);
+                            connected[p] = false;
+                            fetching.retain(|(_, q)| *q != p);
+                            json!({"disconnect": p})
+                        }
+                    }
+                    40..=59 => {
+                        let k = rng.usize(rids.len());
+                        let (tx, _rx) = crossbeam_channel::bounded(1);
+                        node.service.command(Command::AnnounceRefs(rids[k], tx));
+                        json!({"announce_refs": k})
+                    }
+                    60..=69 => {
+                        let k = rng.usize(rids.len());
+                        let (tx, _rx) = crossbeam_channel::bounded(1);
+                        if rng.bool() {
+                            node.service.command(Command::AddInventory(rids[k], tx));
+                            json!({"add_inventory": k})
+                        } else {
+                            node.service.command(Command::Unseed(rids[k], tx));
+                            json!({"unseed": k})
+                        }
+                    }
+                    70..=77 => {
+                        let k = rng.usize(rids.len());
+                        let (tx, _rx) = crossbeam_channel::bounded(1);
+                        node.service.command(Command::Seed(rids[k], Scope::All, tx));
+                        json!({"seed": k})
+                    }
+                    78..=89 => {
+                        // start a fetch from a connected peer
+                        let conn: Vec<usize> = (0..nrem).filter(|p| connected[*p]).collect();
+                        if conn.is_empty() {
+                            return json!({"noop": 1});
+                        }
+                        let p = *rng.pick(&conn);
+                        let k = rng.usize(rids.len());
+                        let (tx, _rx) = crossbeam_channel::bounded(4);
+                        node.service.command(Command::Fetch(rids[k], remotes[p].nid, std::time::Duration::from_secs(3), tx));
+                        json!({"fetch_command": {"repo": k, "from": p}})
+                    }
+                    _ => {
+                        // deliver a successful result for a fetch the service started
+                        if fetching.is_empty() {
+                            return json!({"noop": 1});
+                        }
+                        let (rid, p) = fetching.remove(rng.usize(fetching.len()));
+                        let k = rids.iter().position(|r| *r == rid).unwrap();
+                        let name = radicle::git::refname!("refs/heads/master");
+                        let res = FetchResult {
+                            updated: vec![RefUpdate::Updated { name, old: svc::oid(&mut rng), new: svc::oid(&mut rng) }],
+                            namespaces: [remotes[p].nid].into_iter().collect(),
+                            clone: rng.bool(),
+                            doc: docs[k].clone(),
+                        };
+                        node.service.fetched(rid, remotes[p].nid, Ok(res));
+                        json!({"fetched_ok": {"repo": k, "from": p}})
+                    }
+                }
+            });
+            match r {
+                Ok(d) => d,
+                Err(p) => {
+                    rep.inconclusive("service panicked (not a C29 verdict)", json!({"panic": p, "log": log}));
+                    return;
+                }
+            }
+        };
+        if desc.get("restart(initialize)").is_some() {
+            last_init_step = step;
+        }
+        log.push(json!({"step": step, "input": desc}));
+        rep.eval();
+        // ---- observe own announcements: outbox, then store
+        let mut own: Vec<Announcement> = vec![];
+        for io in svc::drain(&mut node) {
+            match io {
+                Io::Write(_, msgs) => {
+                    for m in msgs {
+                        if let Message::Announcement(a) = m {
+                            if a.node == local_nid {
+                                own.push(a);
+                            }
+                        }
+                    }
+                }
+                Io::Fetch { rid, remote, .. } => {
+                    if let Some(p) = remotes.iter().position(|r| r.nid == remote) {
+                        fetching.push((rid, p));
+                    }
+                }
+                _ => {}
+            }
+        }
+        if let Ok(it) = node.service.database().gossip().filtered(&Filter::default(), Timestamp::MIN, Timestamp::MAX) {
+            own.extend(it.filter_map(|r| r.ok()).filter(|a| a.node == local_nid));
+        }
+        for a in own {
+            let b = wire::serialize(&a.message);
+            if seen.contains_key(&b) {
+                continue;
+            }
+            let (kind, rid) = match &a.message {
+                AnnouncementMessage::Node(_) => ("node", None),
+                AnnouncementMessage::Inventory(_) => ("inventory", None),
+                AnnouncementMessage::Refs(r) => ("refs", Some(r.rid)),
+            };
+            let ts = *a.timestamp();
+            let created_not_before = if kind == "inventory" { last_init_step.min(step) } else { step };
+            let me = Seen { first_step: step, created_not_before, ts, kind, rid };
+            if kind != "node" {
+                rep.count("own-announcements-observed");
+                if stalled_or_backwards_since_last {
+                    rep.count("own-announcements-observed.after-clock-stalled-or-went-back");
+                    produced_while_stalled += 1;
+                }
+                for prev_b in &order {
+                    let p = &seen[prev_b];
+                    if p.kind == "node" {
+                        continue;
+                    }
+                    let w = || json!({"new": {"kind": kind, "ts": ts, "first_seen_step": step}, "earlier": {"kind": p.kind, "ts": p.ts, "first_seen_step": p.first_step}, "log": log});
+                    // strong clause: p certainly created before `me`
+                    if p.first_step < me.created_not_before && ts <= p.ts {
+                        rep.violation("C29/later-created-announcement-has-timestamp-not-greater", w());
+                        return;
+                    }
+                    // attribution-free clauses
+                    if ts == p.ts {
+                        rep.violation("C29/two-distinct-own-announcements-share-a-timestamp", w());
+                        return;
+                    }
+                    if p.kind == kind && p.rid == rid && ts < p.ts {
+                        rep.violation("C29/timestamp-of-same-kind-and-repo-went-backwards", w());
+                        return;
+                    }
+                }
+            }
+            seen.insert(b.clone(), me);
+            order.push(b);
+        }
+        if desc.get("tick+wake").map(|_| desc["class"] == "forward").unwrap_or(false) {
+            stalled_or_backwards_since_last = false;
+        }
+    }
+    let _ = BTreeSet::<u8>::new();
+    if order.len() >= 4 {
+        rep.nontrivial(seed);
+    }
+    if rep.wants_sample() && produced_while_stalled > 2 {
+        rep.sample(json!({"log": log.iter().take(30).collect::<Vec<_>>(), "own_announcement_timestamps_in_observation_order": order.iter().map(|b| json!([seen[b].kind, seen[b].ts])).collect::<Vec<_>>()}));
+    }
+}
+
+pub fn run(args: &Args) {
+    let mut rep = Reporter::new("C29");
+    if let Some(path) = &args.replay {
+        let w = vcommon::load_replay(path);
+        one(&mut rep, w["case_seed"].as_u64().unwrap_or(args.seed), args.thorough);
+        rep.finish();
+        return;
+    }
+    for k in 0..args.budget(3_200, 60_000) {
+        one(&mut rep, args.case_seed(k), args.thorough);
+    }
+    rep.finish();
+}
